@@ -194,7 +194,7 @@ fn def(prop: &str, tier: u8) -> Option<Def> {
             clauses: vec!["static_semantics", "static_init_not_ordered", "unexpected_panic", "iteration_state_leaks"],
             rule: "two loom::thread_local! keys and two loom::lazy_static! values declared in the harness whose init and Drop bump std counters: every 2-thread program with <= 2 static accesses per thread (with, nested with, try_with, lazy deref), all single-thread lists, 4-thread first-access races, + random programs (1-4 threads, <= 3 accesses, SeqCst atomics in between so that first-access races are explored, main joining before or after its own accesses). Per iteration (at the iteration hook): thread-local init count = number of threads touching the key, drops = inits, values private to their thread, try_with on the key under destruction = AccessError, lazy init count = 1 iff touched, one instance address for all threads, dropped by the end of the iteration and re-initialised in the next; a causality panic on the cell written inside init = missing init -> access edge; a third lazy static whose initialiser yields (init count must still be 1: known finding when two first accesses race); programs whose thread-local destructors start with a scheduling point, with a monitor in the joiner (after join(t) every thread-local of t has been dropped). non-trivial = the program touches a static",
             trusted: vec!["counters in std atomics (invisible to loom)", "iteration hook as the end-of-iteration point"],
-            assumptions: vec!["a thread-local first initialised from inside another key's destructor is not generated (hostile shape, see DESIGN §8)"],
+            assumptions: vec!["destructors that re-initialise thread-locals for more than 8 rounds are not generated"],
             min_nontrivial: 100,
         },
         "C20" => Def {
